@@ -1404,6 +1404,28 @@ def tamper(ctx, obj, der, parsed, verifiers, full, budget):
             mb.free()
             ctx.nontrivial('tamper-alg', tag, aname)
             counts['sigalg-substituted'] = counts.get('sigalg-substituted', 0) + 1
+    # the same object as issuers that encode NULL parameters write it (outer identifier = SEQUENCE { OID, NULL }; the library
+    # has a build option for that form and accepts it): where the verifiers accept that twin, every single-bit change of the two
+    # parameter octets must be refused - the default encoding has no such octets for the flips above to land on
+    if sreg and treg and der[aoff] == 0x30 and der[aoff + 1] < 0x80:
+        alg_null = D.sequence(bytes(der[aoff + 2:aoff + aln]), D.null())
+        twin = D.sequence(tbs_and_before, alg_null, after)
+        at = len(twin) - len(after) - 2
+        tb = ctx.inbuf(twin)
+        if twin[at:at + 2] == b'\x05\x00' and all(fn(tb, len(twin)) == 1 for vlabel, fn, ref in verifiers):
+            for off in (0, 1):
+                for bit in range(8):
+                    ctypes.memmove(tb.ptr + at + off, bytes([twin[at + off] ^ (1 << bit)]), 1)
+                    for vlabel, fn, ref in verifiers:
+                        r = fn(tb, len(twin))
+                        ctx.check(r != 1, '%s:tamper-accepted:sigalg-parameters' % obj, verifier=vlabel, octet=('tag', 'length')[off], bit=bit,
+                                  twin=hx(twin, 2000))
+                    ctypes.memmove(tb.ptr + at + off, bytes([twin[at + off]]), 1)
+                    ctx.nontrivial('tamper-alg-params', tag, off, bit)
+            counts['sigalg-parameters'] = 16
+        else:
+            ctx.stat('info_outer_null_parameters_twin_not_accepted')
+        tb.free()
     for cls, k in counts.items():
         ctx.stat('flips_%s_%s' % (obj, cls), k)
     ctx.stat_max('object_bits_%s' % obj, n * 8)
